@@ -11,6 +11,7 @@ Not decided: the distributional laws of numpy's samplers themselves (trusted).
 from .common import *
 from .closures import factory_closure
 from .. import api
+from ..pred import npred, pred_fmt
 
 EXPLANATION = __doc__
 NO = "sempler.noise."
@@ -52,6 +53,25 @@ def holds_global_generator(clo):
     return None
 
 
+def accepts_all_sizes(rep, f, facts, name):
+    """the callable must serve every n >= 0 in every integer form (Python int, numpy integer - what `mask.sum()` or ANM.sample
+    pass on): a rejection of its own that tests the *type* of n, or anything but n < 0, excludes valid sizes"""
+    raises = [x for x in facts if x.kind == "raise"]
+    bad = None
+    for r in raises:
+        conds = [c for c, pol in r.path]
+        typed = any(isinstance(y, tuple) and len(y) == 4 and y[0] == "ext" and y[1] in ("isinstance", "type") and y[2] and y[2][0] == N for c in conds for y in walk(c))
+        only_negative = len(r.path) == 1 and npred(r.path[0][0], r.path[0][1]) in (npred(("cmp", "<", N, ("const", 0)), True),)
+        if typed:
+            bad = (r, "tests the type of n: numpy integer sizes (np.int64, the result of mask.sum(), ...) are not `int` and are rejected")
+        elif not only_negative and bad is None:
+            bad = (r, "raises under %s" % pred_fmt(npred(r.path[-1][0], r.path[-1][1]))[:80] if r.path else "raises unconditionally")
+    if bad is not None:
+        rep.bad("SIZE.accepts", fwhere(f, bad[0].node), "%s's callable %s" % (name, bad[1]))
+    else:
+        rep.ok("SIZE.accepts", fwhere(f), "%s's callable serves every n >= 0 (no rejection of its own)" % name)
+
+
 def run(prog, rep, tier):
     dc = deepcopied_by_anm(prog)
     for name, (target, slots, defaults) in SPEC.items():
@@ -61,6 +81,7 @@ def run(prog, rep, tier):
             rep.check("R6.copy-stable", held is None, fwhere(f), "%s returns a plain function: ANM's deepcopy of the noise distributions keeps it on the global stream" % name,
                       "%s returns functools.partial over the bound method %s: copy.deepcopy (ANM.__init__ stores deepcopy(noise_distributions)) clones numpy's "
                       "global RandomState into the copy, which then ignores np.random.seed" % (name, held))
+        accepts_all_sizes(rep, f, facts, name)
         draws = [c for c in facts if c.kind == "call" and c.callkind == "ext" and (c.target.startswith("numpy.random.") or c.target.startswith("random."))]
         gens = [c for c in facts if c.kind == "call" and c.callkind == "method" and c.target.lstrip(".") in api.GENERATOR_DRAWS]
         w = fwhere(f)
@@ -91,6 +112,7 @@ def run(prog, rep, tier):
         rep.check("DEFAULTS." + name, dv == defaults and f.params == list(defaults), fwhere(f), "signature %s%s" % (name, tuple(defaults.items())),
                   "signature/defaults are %s" % dv)
     S, f, clo, res, facts = factory_closure(prog, NO + "zero")
+    accepts_all_sizes(rep, f, facts, "zero")
     rep.check("CONST.zero", zeros_of(res, shapes=[N]) and not f.params, fwhere(f), "zero() returns zeros(n)", "zero() returns %s" % fmt(res))
     fn = need(prog, "sempler.functions.null")
     Sn = Sym(prog)
